@@ -71,10 +71,11 @@ CLAIMED["C18"] = dict(
 _BISYNC_NOTE = ("Trusted as C17, plus: the real `copia bisync` binary is driven with HOME redirected; trees are maps path -> bytes of regular files "
   "(no symlinks, modes, mtimes, file/directory clashes); copy_atomic = read the source now, replace the destination; BLAKE3 quantified "
   "(premise: no collision between the two files of one path, injective on the contents in play over a history); nothing is assumed about the path order. "
-  "Every run-level theorem carries the explicit premise Fresh: for each both-changed path of the plan the conflict name is absent on both sides or already "
-  "holds the loser on both sides (the repeated conflict), and distinct both-changed paths have distinct conflict names. Outside it nothing is claimed; "
-  "a conflict name live with other content is the genuine loss F5 (edited conflict copy overwritten), exhibited by the closed witness theorem "
-  "C02_name_clash_loses_version; a name live on one side only (what a crash in the middle of a conflict leaves) is conservatively excluded too.")
+  "Every run-level theorem carries the explicit premise Fresh: for each both-changed path of the plan with loser l and conflict name q, each side holds at q nothing or "
+  "exactly l, and if exactly one side holds it the record for q is not l's digest (inside: q absent; l on both sides = the repeated conflict; l on one side "
+  "unrecorded = a crash leftover), and distinct both-changed paths have distinct conflict names (proved automatic for the real name format). Outside it nothing "
+  "is claimed: it is the documented known class F5, shown real by closed witness theorems - an edited conflict copy is overwritten on both sides "
+  "(C02_name_clash_loses_version); a recorded one-sided copy is deleted again and the trees diverge (C06_name_clash_one_sided_diverges).")
 CLAIMED["C02"] = dict(
   text="Coq theorems, closed under the global context, over any path/digest types, any hash, digest comparison, conflict-name function and path order, trees of any size: one run - every version present on either side when the run starts is afterwards on BOTH sides (at its path, or at the conflict name the run generated for it) unless the record holds its digest for that path and the other side's entry differs (C02_run_no_loss, a corollary of the per-path characterisation of the whole run proved by a loop invariant over the plan); the record is truthful - after every completed run it is exactly the tree both sides hold, user writes/deletes leave it alone (C02_arch_truthful) - and along ANY finite history of writes, deletes, runs and archive faults from arbitrary initial trees (induction over the history) a trusted record is the tree both sides held at the end of the most recent run with only user operations since (C02_arch_is_previous_run), so at EVERY run of every history a version disappears only if both sides held it at that path at the end of the previous completed run and the other side has since changed or deleted it (C02_history_no_loss). Covers delete-on-both-sides-then-recreate (the repaired pruning of the record) and repeated conflicts with the same loser. Tie: real `copia bisync` on generated and directed histories; both trees, the archive, exit class and the dry-run plan compared with the extracted model after every operation; the no-loss oracle is evaluated on the implementation's own snapshots.",
   note=_BISYNC_NOTE,
